@@ -159,6 +159,68 @@ Proof.
   generalize dependent (N.of_nat e). intros n Hn. nia.
 Qed.
 
+(* ------------------------------------------------------------ export trie walk *)
+Lemma natlist_eqb_refl : forall l, natlist_eqb l l = true.
+Proof. induction l as [|x t IH]; [reflexivity|]. cbn [natlist_eqb]. rewrite Nat.eqb_refl, IH. reflexivity. Qed.
+Lemma tmem_in : forall k l, In k l -> tmem k l = true.
+Proof.
+  intros k l H. unfold tmem. apply existsb_exists. exists k. split; [exact H|].
+  unfold tkey_eqb. rewrite Nat.eqb_refl, natlist_eqb_refl. reflexivity.
+Qed.
+
+(* keyed by offset: no offset is expanded twice, and only offsets inside the data are expanded *)
+Lemma trie_walk_inv : forall g fuel stack visited expanded,
+  NoDup expanded -> (forall o, In o expanded -> In (o, []) visited /\ g o <> None) ->
+  let r := trie_walk true g fuel stack visited expanded in
+  NoDup r /\ forall o, In o r -> g o <> None.
+Proof.
+  intros g fuel. induction fuel as [|f IH]; intros stack visited expanded Hn Hi; cbn [trie_walk].
+  - split; [exact Hn|]. intros o Ho. apply (Hi o Ho).
+  - destruct stack as [|[o path] rest].
+    + split; [exact Hn|]. intros o Ho. apply (Hi o Ho).
+    + destruct (tmem (o, []) visited) eqn:M.
+      * apply IH; assumption.
+      * destruct (g o) as [children|] eqn:G.
+        -- apply IH.
+           ++ constructor; [|exact Hn]. intro Hin. destruct (Hi o Hin) as [Hv _]. rewrite (tmem_in _ _ Hv) in M. discriminate.
+           ++ intros o' [<-|Hin]; [split; [left; reflexivity|rewrite G; discriminate]|].
+              destruct (Hi o' Hin) as [A B]. split; [right; exact A|exact B].
+        -- apply IH; [exact Hn|]. intros o' Hin. destruct (Hi o' Hin) as [A B]. split; [right; exact A|exact B].
+Qed.
+
+(* the number of nodes expanded (hence of exports produced) is at most the
+   number of distinct offsets inside the trie data, whatever the shape of the
+   graph (DAGs, cycles, self references) and however long the walk runs *)
+Theorem trie_expansions_bounded : forall g U fuel,
+  (forall o, g o <> None -> o < U) ->
+  length (trie_expanded true g fuel) <= U.
+Proof.
+  intros g U fuel HU. unfold trie_expanded.
+  destruct (trie_walk_inv g fuel [(0, [])] [] [] (NoDup_nil _) ltac:(intros o [])) as [Hn Hg].
+  rewrite <- (seq_length U 0). apply NoDup_incl_length; [exact Hn|].
+  intros o Ho. apply in_seq. specialize (HU o (Hg o Ho)). lia.
+Qed.
+
+(* keyed by path instead (the seeded change that was missed before the trie
+   inputs existed): every path of a diamond-shaped trie is walked *)
+Example trie_keyed_by_path_explodes :
+  length (trie_expanded true (diamond 10) 5000) = 11 /\
+  length (trie_expanded false (diamond 10) 5000) = 2047.
+Proof. vm_compute. split; reflexivity. Qed.
+
+(* selected by the generated fact *)
+Definition trie_statement (key_offset : bool) : Prop :=
+  if key_offset then forall g U fuel, (forall o, g o <> None -> o < U) -> length (trie_expanded true g fuel) <= U
+  else exists g U fuel, (forall o, g o <> None -> o < U) /\ U < length (trie_expanded false g fuel).
+Lemma trie_statement_holds : forall b, trie_statement b.
+Proof.
+  intros [|]; cbn [trie_statement]; [exact trie_expansions_bounded|].
+  exists (diamond 10), 11, 5000. split.
+  - intros o H. unfold diamond in H. destruct (Nat.ltb o 10) eqn:E; [apply Nat.ltb_lt in E; lia|].
+    destruct (Nat.eqb o 10) eqn:E2; [apply Nat.eqb_eq in E2; lia|congruence].
+  - destruct trie_keyed_by_path_explodes as [_ ->]. lia.
+Qed.
+
 (* summary: iteration counts <= cap, recursion depth <= limit *)
 Theorem bounded_steps :
   (forall n cap, (counted n cap <= cap)%N) /\
